@@ -42,6 +42,7 @@ func (e unsupported) Error() string { return e.msg }
 
 // Exec verifies one function.
 type Exec struct {
+	freeVars   map[string]bool // names of variables a closure captured by reference
 	paramTerms map[string]bool // interface-typed parameter values (their pointees existed at entry)
 	initWrite bool // heapSet calls that only initialise a fresh allocation (not recorded as loop writes)
 	ck       *Checker
@@ -177,10 +178,15 @@ func (x *Exec) run() (err error) {
 			x.note("pointer receiver assumed non-nil")
 		}
 	}
+	x.freeVars = map[string]bool{}
 	for _, fv := range fn.FreeVars {
 		v := x.freshValue(st, "fv_"+fv.Name(), fv.Type())
 		st.regs[fv] = v
 		x.params[fv.Name()] = v
+		x.freeVars[fv.Name()] = true
+		if isPointer(fv.Type()) {
+			st.assume(mkNot(mkEq(v.L[0], tZero)))
+		}
 	}
 	// ghost initialisation
 	if x.ctr != nil {
@@ -387,6 +393,9 @@ func (x *Exec) doReturn(st *State, r *ssa.Return) {
 		env := x.newEnv(st)
 		env.atReturn = true
 		env.rets = rets
+		if r != nil && r.Pos().IsValid() {
+			env.spos = r.Pos()
+		}
 		t, err := env.evalBool(c.Expr)
 		if err != nil {
 			panic(fmt.Sprintf("%s:%d: ensures: %v", c.File, c.Line, err))
